@@ -15,8 +15,8 @@ from fsmc import bases, tissue as T, fsutil, solvecase as SC
 PID = "C18"
 RULE = ("states = (tissue, grid, radius) full product; and histories of assignments on one live frame; "
         "non-trivial = some grid cell has a cell centre within the radius; classes = (tissue, grid, radius, assignment history)")
-BOUND = {"quick": "2 tissues x grid 1..12 x 5 radii; assignment histories to depth 3 over 8 assignments at 2 (grid, radius) points",
-         "thorough": "4 tissues x grid 1..12 x 5 radii x 3 assignments; histories to depth 4"}
+BOUND = {"quick": "2 tissues x grid 1..12 x 5 radii; assignment histories to depth 3 over 8 assignments at 2 (grid, radius) points; 5 length units 1e-6..1e6 x 3 grids x 2 radii x 4 assignments",
+         "thorough": "4 tissues x grid 1..12 x 5 radii x 3 assignments; histories to depth 4; 9 length units 1e-8..1e6 on 2 tissues, histories to depth 2"}
 ASSUMPTIONS = ["tolerance 1e-9 relative for linearity / fresh-frame identity (pure arithmetic)"]
 REQUIRED_TAGS = {"all": ["empty_grid_cell", "full_grid_cell", "pure_pressure", "linearity", "history", "principal", "grid12", "small_length_unit", "large_length_unit"]}
 
